@@ -54,6 +54,8 @@ func (f c16File) source() string {
 		return fmt.Sprintf(`{{extends %q}}`, c16Names[f.dep])
 	case "inc":
 		return fmt.Sprintf(`I%d[{{include %q}}]`, f.version, c16Names[f.dep])
+	case "iie":
+		return fmt.Sprintf(`X%d[{{if includeIfExists(%q)}}+{{else}}-{{end}}]`, f.version, c16Names[f.dep])
 	}
 	return fmt.Sprintf("T%d", f.version)
 }
@@ -113,8 +115,8 @@ func genC16(t *rapid.T) c16Case {
 		case k <= 3:
 			op.Op = "set"
 			op.Ext = rapid.IntRange(0, len(c.Exts)-1).Draw(t, "ext")
-			op.Variant = rapid.SampledFrom([]string{"text", "text", "text", "bad", "ext", "inc"}).Draw(t, "variant")
-			if op.Variant == "ext" || op.Variant == "inc" {
+			op.Variant = rapid.SampledFrom([]string{"text", "text", "text", "bad", "ext", "inc", "iie"}).Draw(t, "variant")
+			if op.Variant == "ext" || op.Variant == "inc" || op.Variant == "iie" {
 				if op.Name == len(c16Names)-1 {
 					op.Variant = "text"
 				} else {
@@ -137,8 +139,11 @@ func genC16(t *rapid.T) c16Case {
 			op.Op = "parse"
 			op.Variant = rapid.SampledFrom([]string{"ext", "import", "text"}).Draw(t, "parsevariant")
 			op.Dep = rapid.IntRange(0, len(c16Names)-1).Draw(t, "dep")
-		default:
+		case k == 14:
 			op.Op = "exec"
+		default:
+			// execute again the template object an earlier get / exec of this name returned
+			op.Op = "reexec"
 		}
 		c.Ops = append(c.Ops, op)
 	}
@@ -157,6 +162,7 @@ type c16Model struct {
 	faults map[string]string
 	status []int
 	ptr    []*jet.Template
+	indet  bool // set by render: the outcome depends on something the property leaves open
 }
 
 // cold predicts a load from the loader: ok / determinate, and marks what may get cached on the way.
@@ -218,10 +224,53 @@ func (m *c16Model) render(n int, depth int) (string, bool) {
 				return "", false
 			}
 			return fmt.Sprintf("I%d[%s]", f.version, s), true
+		case "iie":
+			if !m.exists(f.dep) {
+				return fmt.Sprintf("X%d[-]", f.version), true
+			}
+			if df, _ := m.currentPath(f.dep); m.faults[df] != "" {
+				// the file is there but cannot be opened / read: whether that counts as "exists" is left open
+				m.indet = true
+			}
+			s, ok := m.render(f.dep, depth+1)
+			if !ok {
+				return "", false // it exists but cannot be rendered: an error, not "missing"
+			}
+			return fmt.Sprintf("X%d[%s+]", f.version, s), true
 		}
 		return fmt.Sprintf("T%d", f.version), true
 	}
 	return "", false
+}
+
+// exists: some candidate file of name n is in the loader.
+func (m *c16Model) exists(n int) bool {
+	for _, e := range m.c.Exts {
+		if _, ok := m.files[c16Names[n]+e]; ok {
+			return true
+		}
+	}
+	return false
+}
+
+// currentPath is the path a lookup of name n finds right now.
+func (m *c16Model) currentPath(n int) (string, bool) {
+	for _, e := range m.c.Exts {
+		if _, ok := m.files[c16Names[n]+e]; ok {
+			return c16Names[n] + e, true
+		}
+	}
+	return "", false
+}
+
+// current is the file a lookup of name n finds right now.
+func (m *c16Model) current(n int) (c16File, bool) {
+	for _, e := range m.c.Exts {
+		if f, ok := m.files[c16Names[n]+e]; ok {
+			return f, true
+		}
+	}
+	return c16File{}, false
 }
 
 func judgeC16(c c16Case) (v core.Verdict) {
@@ -236,6 +285,11 @@ func judgeC16(c c16Case) (v core.Verdict) {
 	s := jet.NewSet(fl, opts...)
 	m := &c16Model{c: c, files: fl.files, faults: fl.faults, status: make([]int, len(c16Names)), ptr: make([]*jet.Template, len(c16Names))}
 	version := 0
+	type heldTpl struct {
+		t *jet.Template
+		f c16File
+	}
+	held := map[int]heldTpl{} // development mode: template objects the application kept, and the file they were parsed from
 	gets := make([]int, len(c16Names))
 	editAfterLoad, faultRepairLookup := false, false
 	faulted := map[int]bool{}
@@ -298,6 +352,51 @@ func judgeC16(c c16Case) (v core.Verdict) {
 			}
 			// with the default cache the same claim is checked behaviourally: statuses stay as they are,
 			// so a later lookup of a not-cached name must go to the loader again
+		case "reexec":
+			h, ok := held[op.Name]
+			if !ok || !c.Dev || (h.f.variant != "inc" && h.f.variant != "iie" && h.f.variant != "text") {
+				continue
+			}
+			v.Label("reexec-held-template:" + h.f.variant)
+			// the held object is the source it was parsed from; what it includes is looked up when it runs,
+			// in development mode from the loader as it is now
+			want, wok := fmt.Sprintf("T%d", h.f.version), true
+			m.indet = false
+			switch h.f.variant {
+			case "inc":
+				s, ok := m.render(h.f.dep, 1)
+				want, wok = fmt.Sprintf("I%d[%s]", h.f.version, s), ok
+			case "iie":
+				if !m.exists(h.f.dep) {
+					want = fmt.Sprintf("X%d[-]", h.f.version)
+				} else {
+					if df, _ := m.currentPath(h.f.dep); m.faults[df] != "" {
+						m.indet = true
+					}
+					s, ok := m.render(h.f.dep, 1)
+					want, wok = fmt.Sprintf("X%d[%s+]", h.f.version, s), ok
+				}
+			}
+			eo := jetrun.Exec(h.t, nil, nil)
+			if m.indet {
+				if eo.Panicked {
+					v.Failf("%s: Execute of the held template %s panicked: %s", hist(i), name, eo)
+					return
+				}
+				continue
+			}
+			if eo.Panicked {
+				v.Failf("%s: Execute of the held template %s panicked: %s", hist(i), name, eo)
+				return
+			}
+			if wok && (eo.Err != nil || eo.Out != want) {
+				v.Failf("%s: development mode: executing the template object obtained earlier for %s must render what it includes from the loader as it is now: want %q, got %s", hist(i), name, want, eo)
+				return
+			}
+			if !wok && eo.Err == nil {
+				v.Failf("%s: development mode: what the held template %s includes cannot be rendered from the current files, yet Execute succeeded with %q", hist(i), name, eo.Out)
+				return
+			}
 		case "get", "exec":
 			gets[op.Name]++
 			if faulted[op.Name] && fl.faults[name+c.Exts[0]] == "" {
@@ -392,6 +491,8 @@ func judgeC16(c c16Case) (v core.Verdict) {
 			} else if !c.Dev {
 				m.status[op.Name] = stCached
 				m.ptr[op.Name] = t
+			} else if f, ok := m.current(op.Name); ok {
+				held[op.Name] = heldTpl{t, f}
 			}
 			if !c.Dev {
 				for d := range touched {
@@ -401,6 +502,7 @@ func judgeC16(c c16Case) (v core.Verdict) {
 				}
 			}
 			if op.Op == "exec" && o.Err == nil {
+				m.indet = false
 				want, wok := m.render(op.Name, 0)
 				trace = trace[:0]
 				eo := jetrun.Exec(t, nil, nil)
@@ -408,7 +510,9 @@ func judgeC16(c c16Case) (v core.Verdict) {
 					v.Failf("%s: Execute panicked: %s", hist(i), eo)
 					return
 				}
-				if c.Dev {
+				if c.Dev && m.indet {
+					v.Label("exec:outcome-left-open")
+				} else if c.Dev {
 					if puts() > 0 {
 						v.Failf("%s: development mode stored a template in the cache during Execute: %v", hist(i), trace)
 						return
@@ -422,6 +526,19 @@ func judgeC16(c c16Case) (v core.Verdict) {
 						return
 					}
 				} else {
+					// names that are known to be cached are served from the cache at run time too
+					// (include, includeIfExists): no loader traffic for them
+					for d, dn := range c16Names {
+						if m.status[d] != stCached {
+							continue
+						}
+						for _, e := range loaderEvents() {
+							if strings.HasPrefix(e.Path, dn) && (len(e.Path) == len(dn) || e.Path[len(dn)] == '.') {
+								v.Failf("%s: %s is cached, but executing %s asked the loader for it: %v", hist(i), dn, name, loaderEvents())
+								return
+							}
+						}
+					}
 					// an include resolved at run time may cache its target: be conservative
 					m.markIncludes(op.Name, 0)
 				}
@@ -461,7 +578,7 @@ func (m *c16Model) markIncludes(n, depth int) {
 
 func TestC16(t *testing.T) {
 	core.Run(t, "C16",
-		"histories (2-20 steps) of loader edits (set/delete of name+ext with text/unparsable/extends/include content), injected loader faults (Open fails, reader fails midway) and repairs, GetTemplate, Set.Parse with extends/import, Execute, over 4 names; configurations development mode x default/recording Cache x 4 extension lists; oracle = model of what must/may be remembered asserted on Loader/Cache traces and pointer identity; non-trivial = edit after load, fault-then-repair-then-lookup, or the same name requested >=3 times",
+		"histories (2-20 steps) of loader edits (set/delete of name+ext with text/unparsable/extends/include/includeIfExists content), injected loader faults (Open fails, reader fails midway) and repairs, GetTemplate, Set.Parse with extends/import, Execute, Execute of a template object kept from an earlier lookup, over 4 names; configurations development mode x default/recording Cache x 4 extension lists; oracle = model of what must/may be remembered asserted on Loader/Cache traces and pointer identity; non-trivial = edit after load, fault-then-repair-then-lookup, or the same name requested >=3 times",
 		genC16, judgeC16)
 }
 
